@@ -5,6 +5,7 @@ import Mieru.Model.Retx
 import Mieru.Gen.Consts
 import Mieru.Gen.Facts
 import Mieru.Gen.UdpFacts
+import Mieru.Gen.RecvBuf
 /-!
 # C02 — UDP transport: reliable, ordered, exactly-once stream over a faulty network; progress
 
@@ -284,6 +285,46 @@ theorem discard_and_receive_predicates :
        ("Session.moveRecvBufToRecvQueue", "s.recvBuf", "{ seq, _ := iter.Seq() return seq <= nextRecv }")] ∧
     (Gen.Facts.seqCounterAdds.filter (fun x => x.2.1 == "s.nextRecv")) =
       [("Session.moveRecvBufToRecvQueue", "s.nextRecv", "1")] := by decide
+
+/-! ## The receiver accepts every datagram a legal peer can send (model assumption made explicit)
+
+`Arq.Step.recvData` / `Flow.Step.deliver` hand the receiver every datagram the network delivers, WHOLE: the
+models have no "datagram too long for the receiver" step. In the code the MTU (legal range [1280, 1500], per
+endpoint) is a LOCAL SENDING limit — fragment size and padding are computed from the sender's MTU (C14:
+every datagram an endpoint emits is ≤ ITS MTU) and nothing is negotiated — so the two ends may be
+configured with different MTUs and the end with the smaller MTU receives datagrams longer than its own.
+The models' assumption is therefore: the receive path reads datagrams up to the MAXIMUM legal MTU, whatever the
+local MTU is. Regenerated facts (`Gen.RecvBuf`, tools/goextract/recvbuf.go): the buffer
+`PacketUnderlay.readOneSegment` reads one datagram into has a constant size (`none` if the size expression
+depends on anything, e.g. `u.mtu`), and the largest MTU pkg/appctl accepts in a client profile or a server
+configuration. Exercised end to end by harness/props/c02_mtu.go (different MTUs on the two ends). -/
+
+/-- the size of the receive buffer of the packet underlay as regenerated (0 when it is not a constant) -/
+def recvBufSize : Nat := (Gen.RecvBuf.readBufferSizes.head?.getD none).getD 0
+
+/-- Every datagram within the sender's MTU fits the receiver's buffer for EVERY pair of legal MTUs — the
+    receiver's own MTU does not occur in the conclusion: there is exactly one datagram read site, its
+    buffer is a constant, the constant is at least every upper bound the configuration validation enforces
+    (and those bounds exist and agree), and hence no datagram of a legal peer is truncated. -/
+theorem receive_buffer_holds_any_legal_datagram :
+    Gen.RecvBuf.readBufferSites.map (fun x => x.1) = ["PacketUnderlay.readOneSegment"] ∧
+    Gen.RecvBuf.readBufferSizes = [some 1500] ∧
+    Gen.RecvBuf.mtuUpperBounds ≠ [] ∧ (∀ m ∈ Gen.RecvBuf.mtuUpperBounds, m ≤ recvBufSize) ∧
+    (∀ m ∈ Gen.RecvBuf.mtuLowerBounds, m ≤ Gen.RecvBuf.defaultMTU) ∧
+    (∀ m ∈ Gen.RecvBuf.mtuUpperBounds, Gen.RecvBuf.defaultMTU ≤ m) ∧
+    ∀ senderMtu receiverMtu len : Nat,
+      (∀ m ∈ Gen.RecvBuf.mtuUpperBounds, senderMtu ≤ m) → (∀ m ∈ Gen.RecvBuf.mtuUpperBounds, receiverMtu ≤ m) →
+      len ≤ senderMtu → len ≤ recvBufSize := by
+  refine ⟨by decide, by decide, by decide, by decide, by decide, by decide, ?_⟩
+  intro sm _ len hs _ hl
+  have h1 : sm ≤ 1500 := hs 1500 (by decide)
+  have h2 : recvBufSize = 1500 := by decide
+  omega
+
+/-- non-vacuity: the extreme legal pair (sender 1500, receiver 1280) meets the hypotheses, and a buffer of the
+    receiver's own MTU (seeded C02-7) would not hold the sender's full-size datagram -/
+example : (∀ m ∈ Gen.RecvBuf.mtuUpperBounds, 1500 ≤ m) ∧ (∀ m ∈ Gen.RecvBuf.mtuUpperBounds, 1280 ≤ m) ∧
+    (1500 : Nat) ≤ recvBufSize ∧ ¬ ((1500 : Nat) ≤ 1280) := by decide
 
 /-! ## Non-vacuity: a concrete lossy run is reachable and the theorems speak about it. -/
 example : ∃ s, Reach 2 s ∧ s.delivered = [7] ∧ s.segs = [7, 8] ∧ s.nextRecv = 1 := by
